@@ -28,6 +28,10 @@ class Pair:
         self.upper_neighbors = upper  #: The directly implied concepts.
         self.lower_neighbors = lower  #: The directly subsumed concepts.
  
+    def __reduce__(self):
+        """Pickle concept as member of its lattice (by ``index``)."""
+        return operator.getitem, (self.lattice, self.index)
+
     def _eq(self, other):
         if not isinstance(other, Concept):
             return NotImplemented
